@@ -119,6 +119,9 @@ def _semiring(name):
     return {"Real": S.RealSemiring, "Log": S.LogSemiring, "Viterbi": S.ViterbiSemiring}[name](dtype=torch.float64)
 
 
+_FN = {"repr": "equal", "default": "equal_default", "multi": "MultiTensor.allclose"}
+
+
 def check_case(case: dict) -> List[Tuple[str, str]]:
     """-> [(obligation, detail)] violations"""
     from fggs import indices as I
@@ -227,9 +230,9 @@ def check_case(case: dict) -> List[Tuple[str, str]]:
             else:
                 out.append(("harness", f"unknown op {op}"))
         except I.RepInvariantError as e:
-            out.append((f"{op}.wf", f"RepInvariantError: {e}"))
+            out.append((f"{_FN.get(op, op)}.wf", f"RepInvariantError: {e}"))
         except Exception as e:
-            out.append((f"{op}.raises", f"{type(e).__name__}: {str(e)[:300]}"))
+            out.append((f"{_FN.get(op, op)}.raises", f"{type(e).__name__}: {str(e)[:300]}"))
     return out
 
 
@@ -275,10 +278,11 @@ def gen_unit(unit: dict):
     th = tier == "thorough"
     if kind == "pairs":
         shape = tuple(unit["shape"])
-        rng = _rng(seed, f"pairs:{shape}")
+        rng = _rng(seed, f"pairs:{shape}:{unit.get('part', 0)}")
         pats = patterns_for_shape(shape, tier)
         for i, j in itertools.product(range(len(pats)), repeat=2):
             p, q = pats[i], pats[j]
+            if (i + j) % unit.get("parts", 1) != unit.get("part", 0): continue
             if not compatible(p, q): continue
             mp_, mq_ = backed_mask(p), backed_mask(q)
             both, tonly, uonly = mp_ & mq_, mp_ & ~mq_, mq_ & ~mp_
@@ -358,7 +362,7 @@ def gen_unit(unit: dict):
         dfl = [0.0, 1.0, -inf, inf, 2.5, nan]
         for pi, p in enumerate(pats):
             for di, d in enumerate(dfl):
-                if not th and di not in (pi % 6, (pi + 2) % 6, 0): continue
+                if not th and di not in (pi % 6, (pi + 3) % 6): continue
                 for special in (False, True):
                     r = fill_data(p, rng, special=special, dtype=("float32" if (pi + di) % 4 == 3 else "float64"), default=d)
                     yield {"op": "repr", "t": r}
@@ -501,7 +505,9 @@ def make_units(ctx: Ctx) -> List[dict]:
     shapes = all_shapes(6, 2) + [(1, 2, 2), (2, 1, 2), (2, 2, 1), (1, 2, 3), (2, 1, 3), (1, 1, 2)] if not th else all_shapes(6, 3)
     shapes = list(shapes) + [(0,), (0, 2)]
     for s in shapes:
-        U.append({"kind": "pairs", "shape": list(s)})
+        parts = 4 if len(patterns_for_shape(s, ctx.tier)) > 24 else 1
+        for part in range(parts):
+            U.append({"kind": "pairs", "shape": list(s), "part": part, "parts": parts})
         U.append({"kind": "repr", "shape": list(s)})
     mm = [((2,), (1, 2)), ((2, 2), (4,)), ((2, 3), (3, 2)), ((6,), (2, 3)), ((), (1,)), ((2,), (3,)), ((1, 2), (2, 1)), ((2, 2), (2, 3)), ((0,), ()), ((0,), (0, 2))]
     for a, b in mm:
@@ -517,7 +523,7 @@ TITLES = {"pairs": ("PatternedTensor.equal / allclose on pairs of patterns",
                     "all well-typed ordered pairs of patterns of T over every shape with numel<=6, ndim<=2 (+6 three-dimensional, +2 zero-size shapes) x 3 of 8 default pairs (equal / different / -inf / inf) x scenarios {constructed-equal re-patterning, near-miss in overlap / t-only / u-only / default-backed position, random incl. NaN/inf, NaN-equal, bool} x (rtol,atol) in {(0,0),(1e-5,1e-8),(0,0.5)} with one element at 0.5x / 2x the tolerance"),
           "mismatch": ("equal / allclose on tensors of different shapes", "10 shape pairs (same numel or not) x every 3rd pattern pair, all-zero and random data"),
           "repr": ("equal / allclose vs representation (same object, clone, freshen, densified, default_to, T.T), shape mismatch, equal_default / allclose_default",
-                   "every pattern of T of the shapes above x 3 of 6 defaults (incl. NaN) x data NaN-free / with specials, float64/float32/bool/int64; physical == default exactly, and one element at 0.5x / 2x the tolerance"),
+                   "every pattern of T of the shapes above x 2 of 6 defaults (incl. NaN) x data NaN-free / with specials, float64/float32/bool/int64; physical == default exactly, and one element at 0.5x / 2x the tolerance"),
           "multi": ("MultiTensor.allclose", "4 semirings x 3 key sets x 3 block-pattern variants x every combination of block states {absent, zero block in 2 patterns, non-zero block in 2 patterns, +0.25, +0.75 on one element, constant 0.25} of the first key x 6 combinations of the second x tol in {0, 0.5, 1e-5}")}
 
 
